@@ -18,10 +18,23 @@ pub struct SlotRef {
     pub off: usize,
 }
 
+/// SlotRef::idx of instances that live in the packed slab
+pub const SLAB_IDX: usize = usize::MAX;
+pub const SLAB_BYTES: usize = 1 << 17;
+const SLAB_SLACK: usize = 4096;
+
 pub struct Slots {
     mem: Vec<*mut u8>,
     free: Vec<usize>,
     pub allocs: u64,
+    /// Packed storage: instances sit back to back in one slab, like elements of a Vec or fields of a
+    /// struct, with a shadow copy. An operation on one instance that writes into a neighbour (or past the
+    /// last instance) shows up as a difference outside the regions that operation may touch.
+    slab: *mut u8,
+    slab_shadow: Vec<u8>,
+    /// live regions (offset, length), sorted by offset
+    regions: Vec<(usize, usize)>,
+    hwm: usize,
 }
 
 impl Default for Slots {
@@ -32,7 +45,82 @@ impl Default for Slots {
 
 impl Slots {
     pub fn new() -> Self {
-        Slots { mem: Vec::new(), free: Vec::new(), allocs: 0 }
+        Slots { mem: Vec::new(), free: Vec::new(), allocs: 0, slab: core::ptr::null_mut(), slab_shadow: Vec::new(), regions: Vec::new(), hwm: 0 }
+    }
+    fn slab_layout() -> Layout {
+        Layout::from_size_align(SLAB_BYTES, SLOT_ALIGN).unwrap()
+    }
+    /// Allocate `size` bytes aligned to `align` in the packed slab, first fit from the bottom, leaving `gap`
+    /// bytes (rounded up to the alignment) after the preceding live region. Falls back to a slot of its own
+    /// when the slab is full, and always under Miri (separate allocations let the interpreter see any
+    /// out-of-bounds access between instances, which is stronger than the shadow comparison).
+    pub fn alloc_packed(&mut self, size: usize, align: usize, gap: usize) -> SlotRef {
+        if cfg!(miri) || size == 0 {
+            return self.alloc(gap.min(64) / align.max(1) * align.max(1));
+        }
+        if self.slab.is_null() {
+            self.slab = unsafe { alloc_zeroed(Self::slab_layout()) };
+            assert!(!self.slab.is_null());
+            unsafe { core::ptr::write_bytes(self.slab, DEAD, SLAB_BYTES) };
+            self.slab_shadow = vec![DEAD; SLAB_BYTES];
+        }
+        let a = align.max(1);
+        let up = |x: usize| x.div_ceil(a) * a;
+        let mut cand = up(gap);
+        let mut at = self.regions.len();
+        for (i, &(o, l)) in self.regions.iter().enumerate() {
+            if cand + size <= o {
+                at = i;
+                break;
+            }
+            cand = up(o + l + gap);
+        }
+        if cand + size + SLAB_SLACK > SLAB_BYTES {
+            return self.alloc(0);
+        }
+        self.allocs += 1;
+        self.regions.insert(at, (cand, size));
+        self.hwm = self.hwm.max(cand + size);
+        SlotRef { idx: SLAB_IDX, off: cand }
+    }
+    /// the live region an offset falls into
+    pub fn region_at(&self, off: usize) -> Option<(usize, usize)> {
+        self.regions.iter().copied().find(|&(o, l)| off >= o && off < o + l)
+    }
+    pub fn region_of(&self, s: SlotRef) -> Option<(usize, usize)> {
+        if s.idx == SLAB_IDX { self.regions.iter().copied().find(|&(o, _)| o == s.off) } else { None }
+    }
+    /// the slab now legitimately differs from its shadow in these regions: accept them
+    pub fn sync(&mut self, regions: &[(usize, usize)]) {
+        for &(o, l) in regions {
+            unsafe { core::ptr::copy_nonoverlapping(self.slab.add(o) as *const u8, self.slab_shadow.as_mut_ptr().add(o), l) };
+        }
+    }
+    /// first byte of the slab (up to the high-water mark plus slack) that differs from the shadow outside
+    /// `allowed`: (offset, expected, actual)
+    pub fn foreign_diff(&self, allowed: &[(usize, usize)]) -> Option<(usize, u8, u8)> {
+        if self.slab.is_null() {
+            return None;
+        }
+        let end = (self.hwm + SLAB_SLACK).min(SLAB_BYTES);
+        let cur = unsafe { core::slice::from_raw_parts(self.slab as *const u8, end) };
+        if cur == &self.slab_shadow[..end] {
+            return None;
+        }
+        let mut i = 0;
+        while i < end {
+            if cur[i] != self.slab_shadow[i] {
+                match allowed.iter().find(|&&(o, l)| i >= o && i < o + l) {
+                    Some(&(o, l)) => {
+                        i = o + l;
+                        continue;
+                    }
+                    None => return Some((i, self.slab_shadow[i], cur[i])),
+                }
+            }
+            i += 1;
+        }
+        None
     }
     fn layout() -> Layout {
         Layout::from_size_align(SLOT_BYTES, SLOT_ALIGN).unwrap()
@@ -53,18 +141,32 @@ impl Slots {
         SlotRef { idx, off }
     }
     pub fn free(&mut self, s: SlotRef) {
+        if s.idx == SLAB_IDX {
+            if let Some(i) = self.regions.iter().position(|&(o, _)| o == s.off) {
+                let (o, l) = self.regions.remove(i);
+                unsafe { core::ptr::write_bytes(self.slab.add(o), DEAD, l) };
+                self.slab_shadow[o..o + l].fill(DEAD);
+            }
+            return;
+        }
         unsafe { core::ptr::write_bytes(self.mem[s.idx], DEAD, SLOT_BYTES) };
         self.free.push(s.idx);
     }
     #[inline]
     pub fn ptr(&self, s: SlotRef) -> *mut u8 {
+        if s.idx == SLAB_IDX {
+            return unsafe { self.slab.add(s.off) };
+        }
         unsafe { self.mem[s.idx].add(s.off) }
     }
     pub fn base(&self, s: SlotRef) -> *mut u8 {
+        if s.idx == SLAB_IDX {
+            return self.slab;
+        }
         self.mem[s.idx]
     }
     pub fn live(&self) -> usize {
-        self.mem.len() - self.free.len()
+        self.mem.len() - self.free.len() + self.regions.len()
     }
 }
 
@@ -72,6 +174,9 @@ impl Drop for Slots {
     fn drop(&mut self) {
         for &p in &self.mem {
             unsafe { dealloc(p, Self::layout()) };
+        }
+        if !self.slab.is_null() {
+            unsafe { dealloc(self.slab, Self::slab_layout()) };
         }
     }
 }
